@@ -1,0 +1,32 @@
+//go:build verif
+
+package kv
+
+// VerifPermute, when set, chooses the order in which mergeRoots folds the
+// listed versions (verification harness only).
+var VerifPermute func([]string) []string
+
+func verifPermute(roots []string) []string {
+	if VerifPermute != nil {
+		return VerifPermute(roots)
+	}
+	return roots
+}
+
+// Export shims for the verification harness.
+
+func VerifEncrypt(key *[32]byte, m []byte) ([]byte, error) { return encrypt(key, m) }
+
+func VerifDecrypt(key *[32]byte, c []byte) ([]byte, error) { return decrypt(key, c) }
+
+func VerifLegacySeal(m, n []byte, k *[32]byte) ([]byte, error) {
+	return crypto_secretbox_easy(m, n, k)
+}
+
+func VerifLegacyOpen(c, n []byte, k *[32]byte) ([]byte, error) {
+	return crypto_secretbox_open_easy(c, n, k)
+}
+
+func VerifNonce(m []byte, l int) ([]byte, error) { return nonce(m, l) }
+
+func VerifDeriveKey(master, context []byte) []byte { return deriveKey(master, context) }
